@@ -62,7 +62,23 @@ class SimState:
 SIM = SimState()
 
 
+import re as _re
+_RND = _re.compile(r"^[a-z0-9_]{8}$")
+_KNOWN8 = {"cbin_tmp", "bin_temp"}
+
+
+def _mask_random(name):
+    """tempfile.mkstemp puts eight random characters into a name: labels must not depend on them."""
+    return ".".join("<rnd>" if (_RND.match(t) and t not in _KNOWN8 and any(c.isdigit() or c == "_" for c in t)) else t for t in name.split("."))
+
+
 def _rel(p):
+    p = _rel0(p)
+    d, b = os.path.split(p)
+    return os.path.join(d, _mask_random(b)) if b else p
+
+
+def _rel0(p):
     p = os.fspath(p)
     if not isinstance(p, str):
         p = os.fsdecode(p)
